@@ -82,4 +82,31 @@ def isEmBlock : Block → Bool
 /-- a document made of such blocks (all at top level) -/
 def EmDoc (d : Doc) : Bool := d.all isEmBlock
 
+/-! ### rung C grown: code spans and one level of emphasis in the same paragraph or heading -/
+
+/-- words, a backslash escape, a code span without `<`, or `em` / `strong` around words -/
+def isMixItem : Inline → Bool
+  | .text _ => true
+  | .esc _ => true
+  | .code b => noLt b
+  | .em [.text _] => true
+  | .strong [.text _] => true
+  | _ => false
+
+/-- inline content made of words, escapes, code spans and emphasised words, in any order -/
+def mixRun (c : List Inline) : Bool := c.all isMixItem && noBsBeforeCode c
+
+/-- a rule, an indented code block without `<`, or a paragraph / ATX heading / Setext heading whose content is words,
+    escapes, code spans and emphasised words -/
+def isMixBlock : Block → Bool
+  | .rule => true
+  | .code ls => ls.all noLt
+  | .para c => mixRun c
+  | .atx _ c => mixRun c
+  | .setext _ c => mixRun c
+  | _ => false
+
+/-- a document made of such blocks (all at top level); contains `SpanDoc` and `EmDoc` -/
+def MixDoc (d : Doc) : Bool := d.all isMixBlock
+
 end MdVerif.DocSpec
